@@ -30,7 +30,7 @@ def build_batch(spec, topic, partition, base, now_ms=1_600_000_000_000):
     pid = spec.get("pid", -1)
     if kind in ("commit", "abort"):
         raw = RR.encode_control_batch(base, pid, spec.get("epoch", 0), kind == "commit", timestamp=now_ms,
-                                      key_extra=spec.get("key_extra", b""))
+                                      key_extra=spec.get("key_extra", b""), attrs_extra=spec.get("attrs_extra", 0))
         return (None if spec.get("gone") else raw), base + 1
     n = spec["n"]
     deltas = spec.get("deltas") or []
@@ -58,12 +58,13 @@ def build_batch(spec, topic, partition, base, now_ms=1_600_000_000_000):
         if kind == "empty":
             raw = RR.encode_v2([], base_offset=base, last_offset_delta=last_delta, first_ts=tss[0], max_ts=tss[0],
                                pid=pid, epoch=0 if pid >= 0 else -1, base_seq=0 if pid >= 0 else -1,
-                               transactional=bool(spec.get("txn")))
+                               transactional=bool(spec.get("txn")), attrs_extra=spec.get("attrs_extra", 0))
         else:
             raw = RR.encode_v2(recs, base_offset=base, codec=spec.get("codec", 0), ts_type=1 if spec.get("lat") else 0,
                                transactional=bool(spec.get("txn")), pid=pid, epoch=0 if pid >= 0 else -1,
                                base_seq=spec.get("seq", 0) if pid >= 0 else -1, last_offset_delta=last_delta,
-                               max_ts=(max(r["timestamp"] for r in recs) if not spec.get("lat") else now_ms))
+                               max_ts=(max(r["timestamp"] for r in recs) if not spec.get("lat") else now_ms),
+                               attrs_extra=spec.get("attrs_extra", 0))
         return (None if spec.get("gone") else raw), base + last_delta + 1
     magic = 0 if fmt == "v0" else 1
     codec = spec.get("codec", 0)
